@@ -59,6 +59,14 @@ func (h *devHandler) Handle(ctx context.Context, received packet.Request) (packe
 		return nil, packet.NewErrorParseTCP(packet.ErrServerFailure, "verif: typed handler error")
 	case "errShared":
 		return nil, sharedHandlerErr
+	case "errRelayed":
+		// a typed error that was filled in for ANOTHER frame (a gateway handing on what a downstream parse returned):
+		// transaction id 0xABCD, unit 9, function 4, quantity 0 -> exception 03 with that frame's addressing
+		_, err := packet.ParseTCPRequest([]byte{0xAB, 0xCD, 0, 0, 0, 6, 9, 4, 0, 1, 0, 0})
+		if err == nil {
+			err = errors.New("verif: downstream frame unexpectedly accepted")
+		}
+		return nil, err
 	case "errGeneric":
 		return nil, errors.New("verif: generic handler error")
 	case "panic":
